@@ -186,13 +186,8 @@ class ZorgFileCompiler(ZorgFileListener):
     def enterInline_prop(
         self, ctx: ZorgFileParser.Inline_propContext
     ) -> None:  # noqa: D102
-        words = ctx.getText().split(" ")
-        if len(words) == 1:
-            key, value = words[0][1:-1].split("::")
-        else:
-            key = words.pop(0)[1:-2]
-            value = " ".join(words)[:-1]
-        self._add_prop(key, value)
+        key, value = ctx.getText()[1:-1].split("::", maxsplit=1)
+        self._add_prop(key, value.strip())
 
     def enterItem(self, ctx: ZorgFileParser.ItemContext) -> None:  # noqa: D102
         del ctx
